@@ -30,7 +30,8 @@ RULE = ("for routes of h = 1..8 hops over line/tree topologies: every single-fai
         "(k = 0..h-1) fails completely, link-layer ACKs of hop k lost while the payload is stored, NETWORK_ACK relay j "
         "(j = 0..h-2) fails completely - plus the fault-free run, for ack-type and non-ack-type messages (quick: sampled "
         "types, h in {1,2,3,5,8}; thorough: all types 0..255 except those the network layer consumes x all h); seeded "
-        "runs beyond with random double faults, tx_timeout 5..150 ms, route_timeout 15..450 ms, MCU jitter. Non-trivial: "
+        "runs beyond with random double faults, cross traffic routed through the sender (a foreign NETWORK_ACK passes it while "
+        "its own never arrives), tx_timeout 5..150 ms, route_timeout 15..450 ms, MCU jitter. Non-trivial: "
         "route has an intermediate node; distinct = distinct abstract event sequences")
 ASSUMPTIONS = ["single-frame messages (<= 24 bytes): the property's scope", "chip/air model M1-M4, M7, M9",
                "a NETWORK_ACK sitting unread in the RX FIFO at the deadline is a legitimate timeout (margin = 2 poll periods + 5 ms)"]
@@ -117,11 +118,22 @@ def make(i, base_seed, tier):
     src, dst = route(h)
     if rng.random() < 0.5:
         src, dst = dst, src
+    cross = None
+    if i >= len(en) and rng.random() < 0.35:
+        # cross traffic through the sender: the sender is a router (0o1) whose own NETWORK_ACK never arrives, while a
+        # descendant's message - and the NETWORK_ACK answering it - pass through it during its wait
+        mode = "unicast"
+        src, dst = 0o1, rng.choice([0o22, 0o222])
+        t = rng.choice([65, 100, 127, 191])
+        faults_desc = [{"kind": rng.choice(["nack", "fwd"]), "pos": rng.choice([0, 1]) if True else 0}]
+        cross = {"from": 0o11, "to": rng.choice([0o3, 0o33]), "delay_ms": rng.choice([1, 3, 8, 20]), "type": rng.choice([65, 90, 127])}
     path = netref.path(src, dst)
     faults = []
     for f in faults_desc:
         faults += fault_rules(path, t, f)
-    nodes = sorted(set(path) | {netref.parent(a) for a in path if a} | {0})
+    if cross:
+        faults = [f for f in faults if f.get("ptype") != t or f.get("src") != "n%s" % path[0]]   # the sender's own first hop works
+    nodes = sorted(set(path) | {netref.parent(a) for a in path if a} | {0} | (set(netref.path(cross["from"], cross["to"])) if cross else set()))
     # close under parent
     closed = set(nodes)
     for a in list(closed):
@@ -133,7 +145,7 @@ def make(i, base_seed, tier):
             "nodes": [{"addr": a, "knobs": random_mcu_knobs(kr, stalls=False) if slow else {"spi_overhead_us": rng.choice([5, 20, 50]), "spi_jitter_us": 5,
                                                                                          "poll_us": rng.choice([100, 300, 1000]), "rate": 1.0 + rng.uniform(-0.02, 0.02),
                                                                                          "epoch_ns": rng.randrange(10**12)}} for a in sorted(closed)],
-            "faults": faults, "fault_desc": faults_desc, "tx_timeout": rng.choice([5, 25, 25, 50, 150]),
+            "faults": faults, "fault_desc": faults_desc, "cross": cross, "tx_timeout": rng.choice([5, 25, 25, 50, 150]),
             "route_timeout": rng.choice([15, 75, 75, 150, 450])}
 
 
@@ -175,7 +187,16 @@ def _run(scn, w, net, res):
             return node.multicast(data, typ, netref.level(dst))
         f = RF24NetworkFrame(RF24NetworkHeader(dst if mode == "unicast" else path[1], typ), data)
         return node.write(f)
+    cross = scn.get("cross")
+    if cross and cross["from"] in net.nodes:
+        def do2(node):
+            from circuitpython_nrf24l01.network.structs import RF24NetworkHeader, RF24NetworkFrame
+            return node.write(RF24NetworkFrame(RF24NetworkHeader(cross["to"], cross["type"]), b"cross"))
+        net.hold(cross["from"], cross["delay_ms"] * MS)
+        c2 = net.post(cross["from"], "write", do2)
     c = net.call(src, "write", do, timeout=20_000 * MS)
+    if cross and cross["from"] in net.nodes:
+        net.wait(c2, timeout=20_000 * MS)
     if not c.done:
         res.add("bounded", {"kind": "write_did_not_return"}, "write() did not return within 20 s of virtual time")
         return
@@ -230,6 +251,7 @@ def _run(scn, w, net, res):
         res.add("bounded", dict(sig, kind="too_long"), "write() took %d us, bound %d us (tx_timeout %d ms, route_timeout %d ms)"
                 % ((c.t1 - c.t0) // US, bound // US, scn["tx_timeout"], scn["route_timeout"]))
     # ---- once: originations at the delivering router
+    cross_route = set(netref.path(cross["from"], cross["to"])) if cross else set()
     if hops > 1:
         last = net.nodes[path[-2]]
         fw = [cy for cy in last.radio.cycles if len(cy["data"]) >= 8 and cy["data"][6] == typ and cy["data"][8:] == data]
@@ -238,7 +260,7 @@ def _run(scn, w, net, res):
         fw_ok = {cy["upload_t"] for cy in fw if cy["result"] == "tx_ds"}
         orig = {cy["upload_t"] for cy in last.radio.cycles if len(cy["data"]) >= 8 and cy["data"][6] == 193}
         others = {k: len({cy["upload_t"] for cy in nc.radio.cycles if len(cy["data"]) >= 8 and cy["data"][6] == 193})
-                  for k, nc in net.nodes.items() if k not in path}
+                  for k, nc in net.nodes.items() if k not in path and k not in cross_route}
         last_hop_linkack = any(f["kind"] == "linkack" and f.get("pos") == hops - 1 for f in scn.get("fault_desc", []))
         if len(orig) > max(1, len(fw_uploads)):
             res.add("once", dict(sig, kind="multiple_network_acks"),
